@@ -17,6 +17,11 @@ Contract = postcondition of `Ombott.__call__` for a handler that reads `request.
   (hang)         the runner's per-case alarm reports a case that does not finish.
 
 Nothing else is demanded (which malformed bodies are accepted and what they mean is left open by the statement).
+
+The statement holds for the application however it was configured.  Besides `Ombott(config)` (case key `setup` absent) the
+same clauses are checked on applications configured AFTER construction (`setup` = one of SETUP_MODES): `Ombott()` followed by
+`app.setup(cfg)` with cfg = {max_memfile_size[, max_body_size]} / {} / no argument / only application-level keys
+{catchall: True, debug: False}, and `Ombott(other cfg)` re-configured by `app.setup(cfg)`; no cfg names `errors_map`.
 """
 import hashlib
 import itertools
@@ -38,8 +43,14 @@ BOUND = ('multipart: 4 base forms (boundaries BND, X, --a-; text+file parts, UTF
          'urlencoded: 31 listed + all strings <=4/<=6 over {a,=,&,%,+,0xff}; every listed body also under the other content types '
          '(32 spellings: multipart with/without/with another/quoted boundary, urlencoded, json, text/plain, none); garbage chunked wires; seeded random '
          'bytes and random multi-mutations; x framing {Content-Length full/1-byte/7-byte reads, chunked pieces all/1/5} x '
-         'max_memfile_size {102400, 64, 16} (+max_body_size 40) x handler access {forms, files, POST, json, body, all, catch}.')
-NONTRIVIAL_RULE = 'distinct (body, content type, framing, declared length, thresholds, access mode); non-trivial = non-empty body'
+         'max_memfile_size {102400, 64, 16} (+max_body_size 40) x handler access {forms, files, POST, json, body, all, catch}. '
+         'Application configured by app.setup(...) after construction (never an errors_map): modes {Ombott() + setup({max_memfile_size'
+         '[, max_body_size]}), Ombott() + setup({}), Ombott() + setup(), Ombott() + setup({catchall, debug}), Ombott({max_memfile_size 7, '
+         'max_body_size 3}) re-configured by setup({max_memfile_size[, max_body_size]})} x a listed selection of the bodies above: '
+         'the 4 intact base forms, every token deletion and every header-block variant of the first part of each base form, truncation at '
+         'every 5th offset (honest length, chunked), the 81 JSON bodies read as json and as forms, the 31 urlencoded bodies, the 12 '
+         'garbage chunked wires, bodies over max_memfile_size 16/64, bodies over max_body_size {0,1,40}, lying Content-Length.')
+NONTRIVIAL_RULE = 'distinct (body, content type, framing, declared length, thresholds, access mode, configuration mode); non-trivial = non-empty body'
 
 CRLF = b'\r\n'
 DEFAULT_MEM = 100 * 1024
@@ -367,7 +378,92 @@ def _gen(tier, seed):
                     max_body=rnd.choice([None] * 8 + [10, 100]))
 
 
+SETUP_MODES = ['setup-cfg', 'setup-empty', 'setup-none', 'setup-app-keys', 'resetup-cfg']
+# modes in which the request-level settings are the defaults (the case's `mem` is DEFAULT_MEM and max_body None there)
+SETUP_DEFAULTS = ('setup-empty', 'setup-none', 'setup-app-keys')
+
+
+def _gen_setup(tier):
+    """malformed (and a few well-formed) bodies against applications configured by app.setup() after construction."""
+    i = 0
+    mp_touch = ['forms', 'files', 'post', 'all', 'catch', 'json', 'body']
+
+    def modes(body, ctype, desc, touches, n=2, framings=FRAMINGS, small=True, **kw):
+        # n setup modes for one body, rotating; modes with a config dict also rotate the thresholds
+        nonlocal i
+        i += 1
+        for k in range(n):
+            mode = SETUP_MODES[(i + 2 * k) % len(SETUP_MODES)] if k else SETUP_MODES[(i * 2) % len(SETUP_MODES)]
+            if k == 0 and i % 2:
+                mode = 'setup-cfg'
+            mem = DEFAULT_MEM if (mode in SETUP_DEFAULTS or not small) else [DEFAULT_MEM, 64, 16, 4096][(i + k) % 4]
+            c = _case(body, ctype, framings[(i + k) % len(framings)], mem, touches[(i + k) % len(touches)], 'setup:' + desc, **kw)
+            if mode in SETUP_DEFAULTS:
+                c['max_body'] = None
+            c['setup'] = mode
+            yield c
+
+    for bname, (bd, parts) in BASES.items():
+        toks = tokens(parts, bd)
+        ct = _mp_ctype(bd)
+        good = join(toks)
+        for mode in SETUP_MODES:
+            for touch in ('all', 'catch'):
+                c = _case(good, ct, FRAMINGS[i % 2], DEFAULT_MEM, touch, f'setup:{bname}:intact')
+                c['setup'] = mode
+                yield c
+        for k, (kind, tok) in enumerate(toks):
+            yield from modes(join(toks[:k] + toks[k + 1:]), ct, f'{bname}:del-token{k}:{kind}', mp_touch)
+        for a, alt in enumerate(HDR_VARIANTS):
+            yield from modes(join(toks[:2] + [['hdr', alt]] + toks[3:]), ct, f'{bname}:alt-token2:hdr:{a}', mp_touch)
+        for cut in range(0, len(good), 5):
+            yield from modes(good[:cut], ct, f'{bname}:cut{cut}', mp_touch, n=2, framings=FRAMINGS[:2])
+        yield from modes(good[:len(good) // 2], ct, f'{bname}:lying-cl', mp_touch, n=3, framings=[('cl', 0, 0)], cl=len(good))
+        yield from modes(b'junk\r\n' + good, ct, f'{bname}:preamble', mp_touch, n=3)
+    for body in JSON_BODIES:
+        for touch in ('json', 'forms'):
+            yield from modes(body, 'application/json', 'json-list', [touch], n=2, small=len(body) < 3000)
+    for body in URL_BODIES:
+        yield from modes(body, 'application/x-www-form-urlencoded', 'url-list', ['forms', 'post', 'catch'], n=2)
+    for w in (b'5\r\nab', b'5\r\nabcde', b'5\r\nabcdeXX0\r\n\r\n', b'zz\r\n', b'zz\r\nabc\r\n0\r\n\r\n', b'-1\r\nab\r\n0\r\n\r\n', b'1' * 100 + b'\r\n',
+              b'FFFFFFFFFFFFFFFFFFFF\r\nab\r\n0\r\n\r\n', b'3;' + b'x' * 200000 + b'\r\nabc\r\n0\r\n\r\n', b'\r\n', b'0\r\n', b'0', b''):
+        for ct in (_mp_ctype('X'), 'application/json', 'application/x-www-form-urlencoded'):
+            yield from modes(w, ct, 'wire-list', ['forms', 'json', 'body', 'catch'], n=2, framings=[('ch', 0, 0)], raw_wire=True)
+    # over the thresholds: max_memfile_size (text field / urlencoded / json larger than it), max_body_size
+    b1 = ms.build(BASES['B1'][1], 'BND', final_crlf=True)
+    big = [(ms.build([(_cd(b'name="a"'), b'x' * 5000)], 'X', final_crlf=True), _mp_ctype('X')),
+           (b'a=' + b'x' * 5000, 'application/x-www-form-urlencoded'), (b'{"a": "' + b'x' * 5000 + b'"}', 'application/json'),
+           (b1, _mp_ctype('BND')), (b'a=1&b=2', 'application/x-www-form-urlencoded'), (b'{"a": 1}', 'application/json')]
+    for body, ct in big:
+        for mem in (4096, 64, 16):
+            for mode in ('setup-cfg', 'resetup-cfg'):
+                for fr in FRAMINGS[:2]:
+                    for touch in ('forms', 'json', 'all', 'catch'):
+                        c = _case(body, ct, fr, mem, touch, 'setup:over-memfile')
+                        c['setup'] = mode
+                        yield c
+        for mb in (0, 1, 40):
+            for mode in ('setup-cfg', 'resetup-cfg'):
+                for fr in FRAMINGS[:2]:
+                    i += 1
+                    c = _case(body, ct, fr, DEFAULT_MEM if i % 2 else 32, TOUCHES[i % len(TOUCHES)], 'setup:max-body', max_body=mb)
+                    c['setup'] = mode
+                    yield c
+
+
 def gen_cases(tier, seed):
+    yield from _gen_cases_ctor(tier, seed)
+    seen = set()
+    for c in _gen_setup(tier):
+        key = (c['ctype'], c['framing'], c['pieces'], c['tail'], c['cl'], c['raw_wire'], c['mem'], c['max_body'], c['touch'], c['setup'])
+        h = hashlib.blake2b(repr(key).encode('utf8', 'backslashreplace') + c['body'], digest_size=12).digest()
+        if h in seen:
+            continue
+        seen.add(h)
+        yield c
+
+
+def _gen_cases_ctor(tier, seed):
     # different mutations can give the same bytes: such a case is generated once (the enumerated small scopes and the
     # random part carry one fixed description each, so the runner's own distinct count already merges repeats there)
     seen = set()
@@ -452,7 +548,22 @@ def run_case(case):
     cfg = {'max_memfile_size': case['mem']}
     if case.get('max_body') is not None:
         cfg['max_body_size'] = case['max_body']
-    app = ombott.Ombott(cfg)
+    mode = case.get('setup')
+    if mode is None:
+        app = ombott.Ombott(cfg)
+    else:
+        # the application is configured after construction; no configuration names an errors_map
+        app = ombott.Ombott({'max_memfile_size': 7, 'max_body_size': 3}) if mode == 'resetup-cfg' else ombott.Ombott()
+        if mode in ('setup-cfg', 'resetup-cfg'):
+            app.setup(cfg)
+        elif mode == 'setup-empty':
+            app.setup({})
+        elif mode == 'setup-none':
+            app.setup()
+        elif mode == 'setup-app-keys':
+            app.setup({'catchall': True, 'debug': False})
+        else:
+            raise AssertionError(mode)
     touch = case['touch']
     delivered = []
     raised = []
